@@ -97,6 +97,31 @@ program p5
   implicit none
   call ext
 end program p5
+module m7
+  implicit none
+  interface
+    subroutine ext7_alpha(a)
+      integer :: a
+    end subroutine ext7_alpha
+    subroutine ext7_beta(a)
+      integer :: a
+    end subroutine ext7_beta
+    integer function ext7_gamma(a)
+      integer :: a
+    end function ext7_gamma
+  end interface
+end module m7
+subroutine u7()
+  use m7, only: ext7_alpha
+  integer :: k7
+  call ext7
+  k7 = ext7
+end subroutine u7
+subroutine v7()
+  use m7
+  integer :: k7
+  k7 = ext7
+end subroutine v7
 """
 
 M4 = """module m4
@@ -123,7 +148,7 @@ subroutine s3()
 end subroutine s3
 """
 
-USER_NAMES = {"ext_sub", "ext_hidden", "ext6_priv", "ext6_pub", "m5", "m6", "p5", "xval", "yval", "aval", "bval", "cval", "m4", "s1", "s3","pub_alpha", "pub_beta", "priv_gamma", "t1", "t2", "comp_x", "comp_hidden", "comp_y", "bind_f", "pub_sub", "pub_fun",
+USER_NAMES = {"ext7_alpha", "ext7_beta", "ext7_gamma", "m7", "u7", "v7", "k7", "ext_sub", "ext_hidden", "ext6_priv", "ext6_pub", "m5", "m6", "p5", "xval", "yval", "aval", "bval", "cval", "m4", "s1", "s3","pub_alpha", "pub_beta", "priv_gamma", "t1", "t2", "comp_x", "comp_hidden", "comp_y", "bind_f", "pub_sub", "pub_fun",
               "priv_sub", "m2_var", "pu_local_mod", "s2", "arg_one", "loc_value", "pu_inner", "obj", "ren_beta", "m1", "m2",
               "main", "zz", "self", "n"}
 
@@ -144,6 +169,10 @@ PROBES = [
     ("main.f90", 9, "zz = m2_", set(), {"m2_var"}),
     # members of unnamed interface blocks: accessibility by the default of the module and PUBLIC/PRIVATE statements
     ("m5.f90", 29, "call ext", {"ext_sub", "ext6_pub"}, {"ext_hidden", "ext6_priv"}),
+    # ... and the ONLY list of the USE statement (procedures of an unnamed interface block of the used module)
+    ("m5.f90", 48, "call ext7", {"ext7_alpha"}, {"ext7_beta", "ext7_gamma"}),
+    ("m5.f90", 49, "k7 = ext7", {"ext7_alpha"}, {"ext7_beta", "ext7_gamma"}),
+    ("m5.f90", 54, "k7 = ext7", {"ext7_alpha", "ext7_beta", "ext7_gamma"}, set()),
     # one entity under several local names; an entity renamed away without ONLY
     ("m4.f90", 7, "print *, xv", {"xval"}, set()),
     ("m4.f90", 8, "print *, av", {"aval"}, set()),
